@@ -1,5 +1,6 @@
 import UPVerif.Lemmas.MASem
 import UPVerif.Lemmas.MACondLemmas
+import UPVerif.Lemmas.MAConflict
 import UPVerif.Lemmas.MADisjLemmas
 import UPVerif.Lemmas.MAGoalLemmas
 import UPVerif.Lemmas.MACompile
@@ -22,12 +23,17 @@ condition is Boolean-defined), plus the components other properties own, as hypo
 those properties prove: `SimpSound` (C11: the simplifier keeps defined Boolean values) and `DnfSound`
 (C12; `MASpec.dnfSound_dnf` derives it for `Expr.dnf` from C12's lemmas).
 
-Three behaviours of the shared single-agent helpers are KNOWN FINDINGS (owned by C06/C07): for each
+Three behaviours of the shared single-agent helpers are KNOWN FINDINGS (inherited from C06/C07): for each
 the full clause is stated as a `def … : Prop`, refuted on a concrete witness by the kernel, and proved
 under a decidable hypothesis that excludes exactly the cause:
-  D-C06a `NoStaticConflict` (the variant is kept without a statically conflicting selected effect),
-  D-C06b `NoIncDecSplit`   (a conditional increase/decrease is split over overlapping disjuncts),
-  D-C07  the "no-op" alternative in the completeness clauses (variants without effects are dropped).
+  D-C37-coinciding-values     `coincide V g a = false` (after d88a7f6 a variant whose selected effects
+                              statically conflict is dropped; the original is inapplicable too unless two
+                              firing assignments of different value EXPRESSIONS have the same VALUE in `g`),
+  D-C37-overlapping-disjuncts `NoIncDecSplit` (a conditional increase/decrease is split over overlapping disjuncts),
+  D-C37-effectless-variant    the "no-op" alternative in the completeness clauses (variants without effects are dropped).
+The former finding D-C37-conflicting-variant (a variant kept WITHOUT a statically conflicting selected
+effect: unsound) is repaired in /repo (d88a7f6); the soundness clause of `C37_cond` no longer has the
+hypothesis `NoStaticConflict`, and the old witness is now the regression example `C37_cond_conflict_dropped`.
 -/
 namespace UPVerif.C37
 open UPVerif UPVerif.Expr UPVerif.Sim UPVerif.MA UPVerif.MASpec
@@ -60,22 +66,25 @@ theorem C37_cond_subsets_listed_once (n : Nat) : (powerset (List.range n)).Nodup
 
 /-- MAIN THEOREM, conditional effects.  For every state in which the action is defined:
     (1) every variant of a subset other than the selected one is inapplicable;
-    (2) when the selected effects pass the static conflict check, the selected variant — if the
-        compiler yields it — has exactly the original's successor (so the original is applicable iff
-        that variant is), the compiler raises nothing, and it drops the variant only when the original
-        is inapplicable or the variant has no effect at all, in which case the original changes
-        nothing.  Both readings of the `except` clause (`mode`) satisfy this. -/
-theorem C37_cond (mode : ConflictMode) (simp : Expr → Expr) (V : View) (g : GState) (a : Action)
+    (2) SOUNDNESS, unconditionally: the selected variant — if the compiler yields it — has exactly the
+        original's successor (so it is applicable iff the original is);
+    (3) the compiler raises nothing on an action the library accepted;
+    (4) COMPLETENESS: the compiler drops the selected variant only when the original is inapplicable, or
+        the variant has no effect at all, in which case the original changes nothing (D-C37-effectless-
+        variant) — provided no two firing assignments of different value expressions coincide in this
+        state (D-C37-coinciding-values; without static conflict among the selected effects the
+        proviso is not needed: `C37_cond_complete_of_noStaticConflict`). -/
+theorem C37_cond (simp : Expr → Expr) (V : View) (g : GState) (a : Action)
     (hs : SimpSound V g simp) (hP : AllDefined V g a.pre) (hD : ∀ e ∈ a.effs, EffDefined V g e) :
     (∀ p ∈ powerset (List.range (condEffects a).length), p ≠ selIdx V g (enumFrom 0 (condEffects a)) →
-      ∀ b, condVariant mode simp a p = some (some b) → successor V g b.pre b.effs = none) ∧
-    (NoStaticConflict a (selIdx V g (enumFrom 0 (condEffects a))) →
-      (∀ b, condVariant mode simp a (selIdx V g (enumFrom 0 (condEffects a))) = some (some b) →
-        successor V g b.pre b.effs = successor V g a.pre a.effs) ∧
-      condVariant mode simp a (selIdx V g (enumFrom 0 (condEffects a))) ≠ none ∧
-      (condVariant mode simp a (selIdx V g (enumFrom 0 (condEffects a))) = some none →
+      ∀ b, condVariant simp a p = some (some b) → successor V g b.pre b.effs = none) ∧
+    (∀ b, condVariant simp a (selIdx V g (enumFrom 0 (condEffects a))) = some (some b) →
+      successor V g b.pre b.effs = successor V g a.pre a.effs) ∧
+    (Accepted a → condVariant simp a (selIdx V g (enumFrom 0 (condEffects a))) ≠ none) ∧
+    (coincide V g a = false →
+      condVariant simp a (selIdx V g (enumFrom 0 (condEffects a))) = some none →
         successor V g a.pre a.effs = none ∨
-        (uncondEffects a = [] ∧ successor V g a.pre a.effs = some g))) := by
+        (uncondEffects a = [] ∧ successor V g a.pre a.effs = some g)) := by
   have hd : ∀ e ∈ condEffects a, ∃ b, bval V g e.cond = some b := fun e he => (hD e (mem_condEffects he)).2
   have hd' : ∀ ie ∈ enumFrom 0 (condEffects a), ∃ b, bval V g ie.2.cond = some b := by
     intro ie hie
@@ -84,25 +93,17 @@ theorem C37_cond (mode : ConflictMode) (simp : Expr → Expr) (V : View) (g : GS
     exact List.mem_map.2 ⟨ie, hie, rfl⟩
   have hdef : ∀ p, AllDefined V g ((marks p (enumFrom 0 (condEffects a))).foldl addPre a.pre) :=
     fun p => allDefined_foldl_addPre hP (allDefined_marks p hd')
-  constructor
+  have hcs := cond_successor (V := V) (g := g) (a := a) hD
+  refine ⟨?_, ?_, fun hacc hn => (condVariant_none_iff simp a _).1 hn hacc, ?_⟩
   · intro p hp hne b hb
-    unfold condVariant at hb
     cases h0 : staticAdd (uncondEffects a) ⟨[], []⟩ with
-    | none => rw [h0] at hb; cases hb
+    | none => simp [condVariant, h0] at hb
     | some acc0 =>
-      rw [h0] at hb
-      simp only at hb
-      cases hv : variantLoop mode p (enumFrom 0 (condEffects a)) a.pre acc0 (uncondEffects a) with
-      | none => rw [hv] at hb; cases hb
-      | some r =>
-        obtain ⟨pre', effs'⟩ := r
-        rw [hv] at hb
-        simp only at hb
-        have hpre := variantLoop_pre mode p _ _ _ _ _ _ hv
-        by_cases he : effs'.isEmpty = true
-        · simp [he] at hb
-        · simp only [he, Bool.false_eq_true, if_false] at hb
-          cases hsp : MA.simplifyPre simp pre' with
+      rw [condVariant_eq simp a p h0] at hb
+      split at hb
+      · split at hb
+        · cases hb
+        · cases hsp : MA.simplifyPre simp ((marks p (enumFrom 0 (condEffects a))).foldl addPre a.pre) with
           | none => rw [hsp] at hb; cases hb
           | some pre'' =>
             rw [hsp] at hb
@@ -110,39 +111,18 @@ theorem C37_cond (mode : ConflictMode) (simp : Expr → Expr) (V : View) (g : GS
             subst hb
             apply successor_none_of_pre
             simp only
-            rw [simplifyPre_some hs (hpre ▸ hdef p) hsp, hpre, all_foldl_addPre]
+            rw [simplifyPre_some hs (hdef p) hsp, all_foldl_addPre]
             cases hm : (marks p (enumFrom 0 (condEffects a))).all (holds V g) with
             | false => simp
             | true => exact absurd (marks_unique hd hp hm) hne
-  · intro hnc
-    unfold NoStaticConflict at hnc
-    rw [staticAdd_append] at hnc
+      · cases hb
+  · intro b hb
     cases h0 : staticAdd (uncondEffects a) ⟨[], []⟩ with
-    | none => rw [h0] at hnc; cases hnc
+    | none => simp [condVariant, h0] at hb
     | some acc0 =>
-      rw [h0] at hnc
-      simp only [Option.bind_some] at hnc
-      have hv := variantLoop_ok mode (selIdx V g (enumFrom 0 (condEffects a))) (enumFrom 0 (condEffects a))
-        a.pre acc0 (uncondEffects a) hnc
-      have hcs := cond_successor (V := V) (g := g) (a := a) hD
-      have hcv : condVariant mode simp a (selIdx V g (enumFrom 0 (condEffects a))) =
-          (if (uncondEffects a ++ selected (selIdx V g (enumFrom 0 (condEffects a))) (enumFrom 0 (condEffects a))).isEmpty then some none
-           else match MA.simplifyPre simp ((marks (selIdx V g (enumFrom 0 (condEffects a))) (enumFrom 0 (condEffects a))).foldl addPre a.pre) with
-            | none => some none
-            | some pre' => some (some { pre := pre', effs := uncondEffects a ++ selected (selIdx V g (enumFrom 0 (condEffects a))) (enumFrom 0 (condEffects a)) })) := by
-        unfold condVariant
-        rw [h0]
-        simp only
-        rw [hv]
-        simp only
-        by_cases hE : (uncondEffects a ++ selected (selIdx V g (enumFrom 0 (condEffects a))) (enumFrom 0 (condEffects a))).isEmpty = true
-        · simp only [hE, if_true]
-        · simp only [hE, Bool.false_eq_true, if_false]
-          cases MA.simplifyPre simp ((marks (selIdx V g (enumFrom 0 (condEffects a))) (enumFrom 0 (condEffects a))).foldl addPre a.pre) <;> rfl
-      rw [hcv]
-      refine ⟨?_, ?_, ?_⟩
-      · intro b hb
-        split at hb
+      rw [condVariant_eq simp a _ h0] at hb
+      split at hb
+      · split at hb
         · cases hb
         · cases hsp : MA.simplifyPre simp ((marks (selIdx V g (enumFrom 0 (condEffects a))) (enumFrom 0 (condEffects a))).foldl addPre a.pre) with
           | none => rw [hsp] at hb; cases hb
@@ -153,11 +133,14 @@ theorem C37_cond (mode : ConflictMode) (simp : Expr → Expr) (V : View) (g : GS
             simp only
             rw [successor_congr_pre _ (simplifyPre_some hs (hdef _) hsp)]
             exact hcs
-      · split
-        · simp
-        · split <;> simp
-      · intro hnone
-        split at hnone
+      · cases hb
+  · intro hco hnone
+    cases h0 : staticAdd (uncondEffects a) ⟨[], []⟩ with
+    | none => simp [condVariant, h0] at hnone
+    | some acc0 =>
+      rw [condVariant_eq simp a _ h0] at hnone
+      split at hnone
+      · split at hnone
         · rename_i hempty
           have hnil : uncondEffects a ++ selected (selIdx V g (enumFrom 0 (condEffects a))) (enumFrom 0 (condEffects a)) = [] := by
             simpa using hempty
@@ -172,6 +155,96 @@ theorem C37_cond (mode : ConflictMode) (simp : Expr → Expr) (V : View) (g : GS
             left
             rw [← hcs]
             exact successor_none_of_pre _ (simplifyPre_none hs (hdef _) hsp)
+      · rename_i hconf
+        left
+        apply conflict_inapplicable hD hco
+        rw [staticAdd_append, h0]
+        simp only [Option.bind_some]
+        cases hx : staticAdd (selected (selIdx V g (enumFrom 0 (condEffects a))) (enumFrom 0 (condEffects a))) acc0 with
+        | none => rfl
+        | some _ => rw [hx] at hconf; simp at hconf
+
+/-- COMPLETENESS without the proviso, where it is not needed: when the effects the state selects pass the
+    static conflict check (the decidable hypothesis of the theorem as it stood before the repair) the
+    selected variant is dropped only for an inapplicable or no-op original -/
+theorem C37_cond_complete_of_noStaticConflict (simp : Expr → Expr) (V : View) (g : GState) (a : Action)
+    (hs : SimpSound V g simp) (hP : AllDefined V g a.pre) (hD : ∀ e ∈ a.effs, EffDefined V g e)
+    (hnc : NoStaticConflict a (selIdx V g (enumFrom 0 (condEffects a)))) :
+    condVariant simp a (selIdx V g (enumFrom 0 (condEffects a))) ≠ none ∧
+    (condVariant simp a (selIdx V g (enumFrom 0 (condEffects a))) = some none →
+      successor V g a.pre a.effs = none ∨
+      (uncondEffects a = [] ∧ successor V g a.pre a.effs = some g)) := by
+  have hd' : ∀ ie ∈ enumFrom 0 (condEffects a), ∃ b, bval V g ie.2.cond = some b := by
+    intro ie hie
+    refine (hD ie.2 (mem_condEffects ?_)).2
+    rw [← enumFrom_map_snd 0 (condEffects a)]
+    exact List.mem_map.2 ⟨ie, hie, rfl⟩
+  have hdef : ∀ p, AllDefined V g ((marks p (enumFrom 0 (condEffects a))).foldl addPre a.pre) :=
+    fun p => allDefined_foldl_addPre hP (allDefined_marks p hd')
+  have hcs := cond_successor (V := V) (g := g) (a := a) hD
+  cases h0 : staticAdd (uncondEffects a) ⟨[], []⟩ with
+  | none =>
+    unfold NoStaticConflict at hnc
+    rw [staticAdd_append, h0] at hnc
+    cases hnc
+  | some acc0 =>
+    have hsel := (noStaticConflict_iff a _ h0).1 hnc
+    rw [condVariant_eq simp a _ h0]
+    simp only [hsel, if_true]
+    constructor
+    · split
+      · simp
+      · split <;> simp
+    · intro hnone
+      split at hnone
+      · rename_i hempty
+        have hnil : uncondEffects a ++ selected (selIdx V g (enumFrom 0 (condEffects a))) (enumFrom 0 (condEffects a)) = [] := by
+          simpa using hempty
+        rw [hnil, successor_nil_effects] at hcs
+        have hu : uncondEffects a = [] := (List.append_eq_nil_iff.1 hnil).1
+        split at hcs
+        · right; exact ⟨hu, hcs.symm⟩
+        · left; exact hcs.symm
+      · cases hsp : MA.simplifyPre simp ((marks (selIdx V g (enumFrom 0 (condEffects a))) (enumFrom 0 (condEffects a))).foldl addPre a.pre) with
+        | some pre'' => rw [hsp] at hnone; cases hnone
+        | none =>
+          left
+          rw [← hcs]
+          exact successor_none_of_pre _ (simplifyPre_none hs (hdef _) hsp)
+
+/-- THE REPAIR d88a7f6 as a theorem: a yielded variant carries the unconditional copy of EVERY selected effect
+    (none is silently left out), and a subset whose selected effects do not pass the static conflict check
+    yields nothing -/
+theorem C37_cond_variant_effects (simp : Expr → Expr) (a : Action) (p : List Nat) :
+    (∀ b, condVariant simp a p = some (some b) →
+      NoStaticConflict a p ∧ b.effs = uncondEffects a ++ selected p (enumFrom 0 (condEffects a))) ∧
+    (Accepted a → ¬ NoStaticConflict a p → condVariant simp a p = some none) := by
+  constructor
+  · intro b hb
+    cases h0 : staticAdd (uncondEffects a) ⟨[], []⟩ with
+    | none => simp [condVariant, h0] at hb
+    | some acc0 =>
+      rw [condVariant_eq simp a p h0] at hb
+      split at hb
+      · rename_i hsel
+        refine ⟨(noStaticConflict_iff a p h0).2 hsel, ?_⟩
+        split at hb
+        · cases hb
+        · split at hb
+          · cases hb
+          · simp only [Option.some.injEq] at hb
+            subst hb
+            rfl
+      · cases hb
+  · intro hacc hn
+    unfold Accepted at hacc
+    cases h0 : staticAdd (uncondEffects a) ⟨[], []⟩ with
+    | none => rw [h0] at hacc; cases hacc
+    | some acc0 =>
+      rw [condVariant_eq simp a p h0]
+      have : ¬ (staticAdd (selected p (enumFrom 0 (condEffects a))) acc0).isSome = true :=
+        fun h => hn ((noStaticConflict_iff a p h0).2 h)
+      simp [this]
 
 /-! ## disjunctive-conditions removal -/
 
@@ -330,31 +403,34 @@ theorem C37_goal_reading (V : View) (g : GState) (γ : Expr) (h : ∀ f ∈ flue
 
 /-! ## map back, and what the compiled problems consist of -/
 
-/-- what `MAConditionalEffectsRemover` makes of one agent -/
-def CondAgentSpec (mode : ConflictMode) (simp : Expr → Expr) (ag : Agent) (cag : CAgent) : Prop :=
+/-- what `MAConditionalEffectsRemover` makes of one agent; `O` carries the objects of the problem, `Compile.cerExpand O a`
+    is `a` with every conditional forall effect whose condition mentions a variable replaced by its instances
+    (`_instances_of_conditional_effect`) -/
+def CondAgentSpec (O : Problem) (simp : Expr → Expr) (ag : Agent) (cag : CAgent) : Prop :=
   cag.name = ag.name ∧ cag.fluents = ag.fluents ∧
   (∀ ca ∈ cag.actions, ∃ a ∈ ag.actions, ca.origin = some a.name ∧ ca.act.params = a.params ∧
     ((Action.isConditional a = false ∧ ca.act.pre = a.pre ∧ ca.act.effs = a.effs) ∨
-     (Action.isConditional a = true ∧ ∃ p ∈ powerset (List.range (condEffects a).length),
-        condVariant mode simp a p = some (some ⟨ca.act.pre, ca.act.effs⟩)))) ∧
+     (Action.isConditional a = true ∧ ∃ p ∈ powerset (List.range (condEffects (Compile.cerExpand O a)).length),
+        condVariant simp (Compile.cerExpand O a) p = some (some ⟨ca.act.pre, ca.act.effs⟩)))) ∧
   (∀ a ∈ ag.actions,
     (Action.isConditional a = false →
       ∃ ca ∈ cag.actions, ca.origin = some a.name ∧ ca.act.pre = a.pre ∧ ca.act.effs = a.effs) ∧
-    (Action.isConditional a = true → ∀ p ∈ powerset (List.range (condEffects a).length), ∀ b,
-      condVariant mode simp a p = some (some b) →
+    (Action.isConditional a = true → ∀ p ∈ powerset (List.range (condEffects (Compile.cerExpand O a)).length), ∀ b,
+      condVariant simp (Compile.cerExpand O a) p = some (some b) →
       ∃ ca ∈ cag.actions, ca.origin = some a.name ∧ ca.act.pre = b.pre ∧ ca.act.effs = b.effs))
 
 /-- MAP BACK, conditional effects: the compiled problem has the same agents (same fluents), environment
     and goals; every compiled action maps back to an action OF THE SAME AGENT and is either that action
-    unchanged (it had no conditional effect) or one of its powerset variants; conversely every
+    unchanged (it had no conditional effect) or one of the powerset variants of that action with its
+    conditional forall effects expanded over the objects of the problem; conversely every
     unconditional action and every yielded variant is there. -/
-theorem C37_map_back_cond (mode : ConflictMode) (simp : Expr → Expr) (P : MAProblem) (C : Compiled)
-    (h : compileCond mode simp P = some C) :
-    C.env = P.env ∧ C.goals = P.goals ∧ ListRel (CondAgentSpec mode simp) P.agents C.agents := by
+theorem C37_map_back_cond (simp : Expr → Expr) (P : MAProblem) (C : Compiled)
+    (h : compileCond simp P = some C) :
+    C.env = P.env ∧ C.goals = P.goals ∧ ListRel (CondAgentSpec P.objProblem simp) P.agents C.agents := by
   unfold compileCond at h
   simp only [Option.map_eq_some_iff] at h
   obtain ⟨ags, hags, rfl⟩ := h
-  obtain ⟨news, hn, hrel⟩ := condAgents_spec mode simp _ _ _ _ _ hags
+  obtain ⟨news, hn, hrel⟩ := condAgents_spec _ simp _ _ _ _ _ hags
   simp only [List.nil_append] at hn
   subst hn
   refine ⟨rfl, rfl, listRel_mono ?_ hrel⟩
@@ -383,25 +459,25 @@ theorem C37_map_back_cond (mode : ConflictMode) (simp : Expr → Expr) (P : MAPr
       simp only [Proto.strip, CAction.strip, Prod.mk.injEq] at hce
       exact ⟨ca, hca, hce.1, hce.2.2.1, hce.2.2.2⟩
     · intro hc q hq b hqb
-      cases hbs : condBodies mode simp a with
+      cases hbs : condBodies simp (Compile.cerExpand P.objProblem a) with
       | none =>
         -- impossible: the agent's prototypes exist, so every conditional action has its bodies
         exfalso
         unfold condProtos at hps
         simp only [Option.map_eq_some_iff] at hps
         obtain ⟨rest, hgo, _⟩ := hps
-        have : ∀ (as : List Action) (r : List Proto), condProtos.go mode simp as = some r → a ∈ as →
-            condBodies mode simp a ≠ none := by
+        have : ∀ (as : List Action) (r : List Proto), condProtos.go P.objProblem simp as = some r → a ∈ as →
+            condBodies simp (Compile.cerExpand P.objProblem a) ≠ none := by
           intro as
           induction as with
           | nil => intro r _ hin; cases hin
           | cons x xs ih =>
             intro r hr hin
             unfold condProtos.go at hr
-            cases hx : condBodies mode simp x with
+            cases hx : condBodies simp (Compile.cerExpand P.objProblem x) with
             | none => rw [hx] at hr; cases hr
             | some bx =>
-              cases hg : condProtos.go mode simp xs with
+              cases hg : condProtos.go P.objProblem simp xs with
               | none => rw [hx, hg] at hr; cases hr
               | some rx =>
                 rcases List.mem_cons.1 hin with rfl | hin'
@@ -535,44 +611,59 @@ def gOf (p q : Bool) (x : Int) : GState := fun k =>
   else if k = kx then some (.n x) else none
 def eff (f v c : Expr) (k : EffKind) : Effect := { fluent := f, value := v, cond := c, kind := k, forall_ := [] }
 
-/-- `act`: `q := true if p` — no unconditional effect (D-C07) -/
+/-- `act`: `q := true if p` — no unconditional effect (D-C37-effectless-variant) -/
 def aNoop : Action := { name := "act", params := [], pre := [], effs := [eff eQ tt ep .assign] }
-/-- `act`: `x := 1`, `x := 2 if p` — statically conflicting (D-C06a) -/
+/-- `act`: `x := 1`, `x := 2 if p` — statically conflicting, the values never coincide (the witness of the
+    former finding D-C37-conflicting-variant) -/
 def aConf : Action := { name := "act", params := [], pre := [], effs := [eff ex (int 1) tt .assign, eff ex (int 2) ep .assign] }
-/-- `x += 1 if (p or q)` — a conditional increase under a disjunction (D-C06b) -/
+/-- `act`: `x := 1`, `x := x if p` — statically conflicting, the values coincide where `x = 1`
+    (D-C37-coinciding-values) -/
+def aCoin : Action := { name := "act", params := [], pre := [], effs := [eff ex (int 1) tt .assign, eff ex ex ep .assign] }
+/-- `x += 1 if (p or q)` — a conditional increase under a disjunction (D-C37-overlapping-disjuncts) -/
 def eOverlap : Effect := eff ex (int 1) (.app .or [ep, eQ]) .increase
-/-- `q := true if FALSE` — an effect that vanishes (D-C07) -/
+/-- `q := true if FALSE` — an effect that vanishes (D-C37-effectless-variant) -/
 def eVanish : Effect := eff eQ tt ff .assign
 
-/-- the completeness clause WITHOUT the "or the original changes nothing" alternative, and the
-    successor clause WITHOUT `NoStaticConflict` -/
+/-- the completeness clause of `C37_cond` WITHOUT the "or the original changes nothing" alternative and
+    WITHOUT the proviso `coincide V g a = false` -/
 def C37_cond_full : Prop :=
-  ∀ (mode : ConflictMode) (simp : Expr → Expr) (V : View) (g : GState) (a : Action),
+  ∀ (simp : Expr → Expr) (V : View) (g : GState) (a : Action),
     SimpSound V g simp → AllDefined V g a.pre → (∀ e ∈ a.effs, EffDefined V g e) →
-    (∀ b, condVariant mode simp a (selIdx V g (enumFrom 0 (condEffects a))) = some (some b) →
-      successor V g b.pre b.effs = successor V g a.pre a.effs) ∧
-    (condVariant mode simp a (selIdx V g (enumFrom 0 (condEffects a))) = some none →
+    (condVariant simp a (selIdx V g (enumFrom 0 (condEffects a))) = some none →
       successor V g a.pre a.effs = none)
 
-/-- D-C07 (inherited): in a state where `p` is false the only variant of `q := true if p` has no effect
-    and is dropped, but the original is applicable (and changes nothing) -/
+/-- … and WITH the alternative but still without the proviso -/
+def C37_cond_full_up_to_noop : Prop :=
+  ∀ (simp : Expr → Expr) (V : View) (g : GState) (a : Action),
+    SimpSound V g simp → AllDefined V g a.pre → (∀ e ∈ a.effs, EffDefined V g e) →
+    (condVariant simp a (selIdx V g (enumFrom 0 (condEffects a))) = some none →
+      successor V g a.pre a.effs = none ∨ (uncondEffects a = [] ∧ successor V g a.pre a.effs = some g))
+
+/-- D-C37-effectless-variant: in a state where `p` is false the only variant of `q := true if p` has no
+    effect and is dropped, but the original is applicable (and changes nothing) -/
 theorem C37_cond_noop_witness :
-    condVariant .asFound id aNoop (selIdx V1 (gOf false false 0) (enumFrom 0 (condEffects aNoop))) = some none ∧
+    condVariant id aNoop (selIdx V1 (gOf false false 0) (enumFrom 0 (condEffects aNoop))) = some none ∧
     (successor V1 (gOf false false 0) aNoop.pre aNoop.effs).isSome = true := by
   constructor <;> decide +kernel
 
-/-- D-C06a (inherited, reading `asFound`): in a state where `p` is true the variant selected for
-    `x := 1; x := 2 if p` is kept with the effect `x := 1` only and is applicable, the original is not -/
-theorem C37_cond_conflict_witness :
-    ∃ b, condVariant .asFound id aConf (selIdx V1 (gOf true false 0) (enumFrom 0 (condEffects aConf))) = some (some b) ∧
-      (successor V1 (gOf true false 0) b.pre b.effs).isSome = true ∧
-      successor V1 (gOf true false 0) aConf.pre aConf.effs = none :=
-  ⟨⟨[ep], [eff ex (int 1) tt .assign]⟩, by decide +kernel, by decide +kernel, by decide +kernel⟩
+/-- REGRESSION EXAMPLE of the repair d88a7f6 (the witness of the former finding D-C37-conflicting-variant):
+    in a state where `p` is true the variant selected for `x := 1; x := 2 if p` is DROPPED — before the
+    repair it was kept with the effect `x := 1` only and was applicable — and the original is not
+    applicable either; the compiler yields the single variant `not p → x := 1` -/
+theorem C37_cond_conflict_dropped :
+    condVariant id aConf (selIdx V1 (gOf true false 0) (enumFrom 0 (condEffects aConf))) = some none ∧
+    successor V1 (gOf true false 0) aConf.pre aConf.effs = none ∧
+    condBodies id aConf = some [⟨[mkNot ep], [eff ex (int 1) tt .assign]⟩] := by
+  refine ⟨?_, ?_, ?_⟩ <;> decide +kernel
 
-/-- … while the repaired reading (C06/C07's patch) drops that variant -/
-theorem C37_cond_conflict_repaired :
-    condVariant .repaired id aConf (selIdx V1 (gOf true false 0) (enumFrom 0 (condEffects aConf))) = some none := by
-  decide +kernel
+/-- D-C37-coinciding-values: in the state `p, x = 1` the variant selected for `x := 1; x := x if p` is dropped
+    (the value expressions `1` and `x` differ) although the original is applicable there (both assign 1)
+    and has an unconditional effect -/
+theorem C37_cond_coincide_witness :
+    condVariant id aCoin (selIdx V1 (gOf true false 1) (enumFrom 0 (condEffects aCoin))) = some none ∧
+    (successor V1 (gOf true false 1) aCoin.pre aCoin.effs).isSome = true ∧
+    uncondEffects aCoin ≠ [] ∧ coincide V1 (gOf true false 1) aCoin = true := by
+  refine ⟨?_, ?_, ?_, ?_⟩ <;> decide +kernel
 
 theorem C37_cond_full_refuted : ¬ C37_cond_full := by
   intro h
@@ -581,11 +672,25 @@ theorem C37_cond_full_refuted : ¬ C37_cond_full := by
     have : e = eff eQ tt ep .assign := by simpa [aNoop] using he
     subst this
     exact ⟨⟨.setB (qual "a1" fq, []) true, by decide +kernel⟩, ⟨false, by decide +kernel⟩⟩
-  have := (h .asFound id V1 (gOf false false 0) aNoop (simpSound_id _ _) (by intro e he; cases he) hE).2
+  have := h id V1 (gOf false false 0) aNoop (simpSound_id _ _) (by intro e he; cases he) hE
     C37_cond_noop_witness.1
   have h2 := C37_cond_noop_witness.2
   rw [this] at h2
   cases h2
+
+theorem C37_cond_full_up_to_noop_refuted : ¬ C37_cond_full_up_to_noop := by
+  intro h
+  have hE : ∀ e ∈ aCoin.effs, EffDefined V1 (gOf true false 1) e := by
+    intro e he
+    simp only [aCoin, List.mem_cons, List.not_mem_nil, or_false] at he
+    rcases he with rfl | rfl
+    · exact ⟨⟨.setV kx (.n 1), by decide +kernel⟩, ⟨true, by decide +kernel⟩⟩
+    · exact ⟨⟨.setV kx (.n 1), by decide +kernel⟩, ⟨true, by decide +kernel⟩⟩
+  have h2 := C37_cond_coincide_witness.2.1
+  rcases h id V1 (gOf true false 1) aCoin (simpSound_id _ _) (by intro e he; cases he) hE
+    C37_cond_coincide_witness.1 with h1 | ⟨h1, _⟩
+  · rw [h1] at h2; cases h2
+  · exact C37_cond_coincide_witness.2.2.1 h1
 
 /-- `C37_disj` WITHOUT `NoIncDecSplit` and WITHOUT the "or nothing changes" alternative -/
 def C37_disj_full : Prop :=
@@ -595,7 +700,7 @@ def C37_disj_full : Prop :=
     (∀ b ∈ bodies, ∀ s', successor V g b.pre b.effs = some s' → successor V g pre effs = some s') ∧
     (∀ s', successor V g pre effs = some s' → ∃ b ∈ bodies, successor V g b.pre b.effs = some s')
 
-/-- D-C06b (inherited): `x += 1 if (p or q)` is split into two effects; where both `p` and `q` hold the
+/-- D-C37-overlapping-disjuncts: `x += 1 if (p or q)` is split into two effects; where both `p` and `q` hold the
     split action reaches `x = 2`, the original `x = 1` -/
 theorem C37_disj_overlap_witness :
     disjBodies id (dnf id) [] [eOverlap] =
@@ -605,7 +710,7 @@ theorem C37_disj_overlap_witness :
     (successor V1 (gOf true true 0) [] [eOverlap]).map (· kx) = some (some (.n 1)) := by
   refine ⟨?_, ?_, ?_⟩ <;> decide +kernel
 
-/-- D-C07 (inherited): an action all of whose effects vanish is dropped although it is applicable -/
+/-- D-C37-effectless-variant: an action all of whose effects vanish is dropped although it is applicable -/
 theorem C37_disj_noop_witness :
     disjBodies id (dnf id) [] [eVanish] = some [] ∧
     (successor V1 (gOf false false 0) [] [eVanish]).isSome = true := by
@@ -656,8 +761,12 @@ example : ∀ e ∈ aGood.effs, EffDefined V1 (gOf true false 0) e := by
     yields four variants -/
 example : selIdx V1 (gOf true false 0) (enumFrom 0 (condEffects aGood)) = [0, 1] := by decide +kernel
 example : NoStaticConflict aGood [0, 1] := by decide +kernel
-example : (condBodies .asFound id aGood).map List.length = some 4 := by decide +kernel
-example : condBodies .asFound id aGood = condBodies .repaired id aGood := by decide +kernel
+example : Accepted aGood := by decide +kernel
+example : coincide V1 (gOf true false 0) aGood = false := by decide +kernel
+example : (condBodies id aGood).map List.length = some 4 := by decide +kernel
+/-- the proviso of clause (4) also holds where a variant IS dropped for a static conflict: `aConf` in a state with `p` -/
+example : coincide V1 (gOf true false 0) aConf = false ∧ ¬ NoStaticConflict aConf [0] := by
+  constructor <;> decide +kernel
 /-- … the selected variant has the original's successor, which exists -/
 example : (successor V1 (gOf true false 0) aGood.pre aGood.effs).isSome = true := by decide +kernel
 
